@@ -290,6 +290,9 @@ func enumerate(cfg enumCfg, h *harness, disc *discovery) []group {
 		cbc{"gopush:Entries", "r = go_Entries({x}, {cb})", []string{"dict"}, true, []string{"exhaust", "break", "fail", "nested", "boom"}},
 		cbc{"gopush:starlark.Elements", "r = go_starlark_Elements({x}, {cb})", kinds, true, []string{"exhaust", "break", "fail", "nested", "boom"}},
 		cbc{"gopush:starlark.Entries", "r = go_starlark_Entries({x}, {cb})", []string{"dict"}, true, []string{"exhaust", "break", "fail", "nested", "boom"}},
+		// overlapping Go iterations that do not end in nested order
+		cbc{"gopush:two pull cursors stopped first-in-first-out", "r = go_pull_fifo({x}, {cb})", kinds, true, []string{"exhaust", "break", "fail", "nested"}},
+		cbc{"gopush:Iterate obtained inside a push loop, used after it", "r = go_iterate_in_push({x}, {cb})", kinds, true, []string{"exhaust", "break", "fail", "nested"}},
 	)
 	for _, d := range disc.Callbacks {
 		cbs = append(cbs, cbc{"cb:" + d.Tmpl, "r = " + d.Tmpl, kinds, d.During, []string{"exhaust", "fail", "nested", "boom"}})
